@@ -3,6 +3,7 @@
 package crypto
 
 import (
+	"runtime"
 	"encoding/binary"
 
 	"github.com/onflow/crypto/hash"
@@ -51,6 +52,61 @@ func decodeSigPoint(sig []byte) *pointE1 {
 		return nil
 	}
 	return &p
+}
+
+// arbHasher: a hasher whose every ComputeHash returns arbitrary 128 bytes with both 64-byte halves below p (any
+// hasher with a 128-byte output is a valid BLS hasher); the outputs are recorded.
+type arbHasher struct{ outs [][]byte }
+
+func (a *arbHasher) Algorithm() hash.HashingAlgorithm { return hash.KMAC128 }
+func (a *arbHasher) Size() int                        { return expandMsgOutput }
+func (a *arbHasher) ComputeHash(d []byte) hash.Hash {
+	o := nondetBytes(expandMsgOutput)
+	// each 64-byte half is read as an integer and reduced mod p by hash-to-field: with the top 17 bytes of each half
+	// zero the halves are below p, so that distinct outputs are distinct pairs of field elements
+	for i := 0; i < 17; i++ {
+		o[i], o[64+i] = 0, 0
+	}
+	a.outs = append(a.outs, o)
+	return append([]byte{}, o...)
+}
+func (a *arbHasher) Write(p []byte) (int, error) { return len(p), nil }
+func (a *arbHasher) SumHash() hash.Hash          { return a.ComputeHash(nil) }
+func (a *arbHasher) Reset()                      {}
+
+func sameBytes(a, b []byte) bool {
+	eq := len(a) == len(b)
+	for i := range a {
+		if i < len(b) {
+			eq = bAnd(eq, a[i] == b[i])
+		}
+	}
+	return eq
+}
+
+// zzC01_arbhasher: consecutive calls with a hasher of arbitrary outputs h1 (Sign), h2, h3 (Verify): the signature is
+// accepted exactly when the hasher output of that Verify call equals the one that was signed -- whatever was hashed in
+// the calls before (no state is carried from one call to the next), for outputs that differ anywhere in the 128 bytes.
+func zzC01_arbhasher() {
+	if verifNative() {
+		runtime.LockOSThread() // (consecutive cgo calls on one OS thread, as a single-threaded caller gets)
+		defer runtime.UnlockOSThread()
+	}
+	var x scalar
+	nondetFrStar(&x)
+	sk := newPrKeyBLSBLS12381(&x)
+	pk := sk.PublicKey()
+	h := &arbHasher{}
+	msg := nondetBytes(2)
+	sig, err := sk.Sign(msg, h)
+	verifAssert(err == nil, "Sign with a 128-byte hasher")
+	ok2, err := pk.Verify(sig, msg, h)
+	verifAssert(err == nil, "Verify with a 128-byte hasher")
+	verifAssert(ok2 == sameBytes(h.outs[1], h.outs[0]), "Verify accepts exactly when this call's hasher output is the signed one")
+	ok3, err := pk.Verify(sig, msg, h)
+	verifAssert(err == nil, "Verify with a 128-byte hasher")
+	verifAssert(ok3 == sameBytes(h.outs[2], h.outs[0]), "the verdict does not depend on what the previous call hashed")
+	verifReach("arbitrary hasher")
 }
 
 // zzC01_candidates: the acceptance set of Verify. Candidates are a*H(m) + b*g1 (+ a point with a
